@@ -224,6 +224,8 @@ class Sim:
         self.max_screen = scn.get("max_screen_iters", 20000)
         self.total_screen = 0
         self.psi_init_hook = None
+        self.seed_solution = None
+        self.keep_output = False
         self.stub_state = {}
 
     # ----------------------------------------------------------------------------------
@@ -340,6 +342,10 @@ class Sim:
                 except AttributeError:
                     pass
         self._patches.clear()
+        dn = getattr(self, "_devnull", None)
+        if dn is not None:
+            dn.close()
+            self._devnull = None
 
     # --------------------------------------------------------------------- environment
     def _install_env(self):
@@ -354,6 +360,16 @@ class Sim:
         self._patch(m_solver, "datetime", FakeDT)
         self._patch(m_solution, "datetime", FakeDT)
         self._patch(m_runner, "time", types.SimpleNamespace(perf_counter=self.clock.perf_counter))
+
+        real_tqdm = m_runner.tqdm
+        devnull = open(os.devnull, "w")
+        self._devnull = devnull
+
+        def quiet_tqdm(*a, **kw):
+            kw["file"] = devnull  # the real progress bar runs; its output goes nowhere
+            return real_tqdm(*a, **kw)
+
+        self._patch(m_runner, "tqdm", quiet_tqdm)
 
         def fake_popen(cmd, **kw):
             h.popen.append(list(cmd))
@@ -687,8 +703,8 @@ class Sim:
         options = B.build_options(scn["options"], out_file)
         self.options = options
         kw = {}
-        if scn.get("seed_solution_obj") is not None:
-            kw["seed_solution"] = scn["seed_solution_obj"]
+        if self.seed_solution is not None:
+            kw["seed_solution"] = self.seed_solution
         solver = tdgl.TDGLSolver(
             device,
             options,
@@ -799,9 +815,10 @@ def classify_discard(h):
     return None
 
 
-def run_scenario(scn, checkers=(), trace=None, root=None, mesh_from=None, psi_init_hook=None):
+def run_scenario(scn, checkers=(), trace=None, root=None, mesh_from=None, psi_init_hook=None, seed_solution=None):
     sim = Sim(scn, checkers=checkers, trace=trace, root=root, mesh_from=mesh_from)
     sim.psi_init_hook = psi_init_hook
+    sim.seed_solution = seed_solution
     h = sim.run()
     why = classify_discard(h)
     if why is not None:
